@@ -10,10 +10,13 @@ CLAIMS = {
                 "without, C14_any_memory), and C01/C02/C03 are proved for every oracle stream, so the forest and the answers do not depend "
                 "on the hint. Termination: every bounded loop of the model provably never runs out of its own fuel (batch loop, "
                 "make-tree depth, reify, delete-tree); in the re-split loop a batch larger than the capacity provably yields a split "
-                "node (progress, what repair G guarantees) while a fitting batch is provably a fixed point (the repaired livelock). "
+                "node (progress, what repair G guarantees) while a fitting batch is provably a fixed point (the repaired livelock); every "
+                "round whose batch exceeds the capacity strictly decreases the measure sum(size-1) of the queued buckets, so the loop "
+                "(and the whole build) provably never exhausts a fuel above that measure: a run can only fail to finish through a batch "
+                "that fits, i.e. the repaired livelock (C14_round_measure, C14_terminates_above_cap, C14_build_terminates_above_cap). "
                 "Real crate: memory in {0, a page, ~items, ample, unset} x item counts around the 200-item minimum x split_after on both "
                 "sides of the batch, first and incremental builds, hang detection by a poll limit.",
-        "note": COMMON_NOTE + " Termination of the re-split loop for an arbitrary RNG is probabilistic and not a theorem.",
+        "note": COMMON_NOTE + " What stays probabilistic in the real code is inside make_tree (a split search that keeps every item on one side recurses on the same set); the model bounds it by the finite stream of recorded normals.",
         "technique": "Lean 4 theorems (oracle-independence, fuel sufficiency, progress / fixed point) + memory-hint lattice on the real crate with hang detection",
     },
     "C20": {
@@ -44,11 +47,12 @@ CLAIMS = {
                 "is the sign pattern at the declared dimension with all-(-1) padding, packing depends on signs only; Hamming = number of "
                 "differing signs, symmetric, zero iff equal patterns; the built distances are functions of h only (4h, 2h, the closed "
                 "cosine formula with the exactly computed norm product), zero (+0.0) for equal patterns for all three metrics at every "
-                "dimension, in [0,1] for cosine, symmetric, monotone in h (Euclidean/Manhattan for all h; cosine up to 320 dimensions). "
+                "dimension, in [0,1] for cosine, symmetric, monotone in h for all three metrics at every dimension (C12_monotone, C12_monotone_cosine: rounding of the soft-float is "
+                "proved monotone), strictly up to 2^21 dimensions for cosine (strictness is FALSE at 2^36 dimensions: machine-checked). "
                 "Real crate: every conversion path (from_slice, iter, to_vec/SSE) and every quantised distance compared bit for bit with "
-                "the model for dims 1..300, exhaustive sign patterns for small d.",
-        "note": COMMON_NOTE + " Strict monotonicity of the cosine distance in h beyond 320 dimensions is not proved (division rounding "
-                "monotonicity missing). The NEON conversion paths are not modelled.",
+                "the model for dims 1..300 (distances up to 450), exhaustive sign patterns for small d; every reported quantised distance "
+                "is also checked against the definition 4h/d, 2h/d, h/D64 evaluated exactly, for symmetry and for zero self-distance.",
+        "note": COMMON_NOTE + " The NEON conversion paths are not modelled.",
         "technique": "Lean 4 theorems over bit patterns (incl. soft-float sqrt/div exactness lemmas) + bit-exact differential of all conversion paths",
     },
     "C02": {
@@ -63,13 +67,14 @@ CLAIMS = {
     },
     "C03": {
         "text": "Proved for every count, budget, oversampling and filter, with no hypothesis on the store: at most count results, distinct, "
-                "stored, inside the filter, sorted nearest-first, each with its true normalized distance; budget monotonicity (the "
+                "stored, inside the filter, sorted nearest-first on the true scores AND on the reported distances (the per-metric "
+                "normalisation is proved monotone on the soft-float: C03_reported_sorted), each with its true normalized distance; budget monotonicity (the "
                 "candidate list for a smaller budget is a prefix; no shorter result, no worse rank); filtered unlimited search = exact "
                 "search on the filter; default budget = count x trees x oversampling with saturating arithmetic; by_item of an absent id "
                 "is none and by_item = by_vector of the stored vector. Real crate: a lattice of counts (0..usize::MAX), budgets, "
                 "oversamplings and filters; answers compared bit-for-bit with the model and checked by the well-formedness, exactness "
                 "and monotonicity predicates.",
-        "note": COMMON_NOTE + " by_item = by_vector is proved for the f32 metrics (quantised: compared on the real crate).",
+        "note": COMMON_NOTE + " by_item = by_vector is proved for all seven metrics (C03Bq for the quantised ones).",
         "technique": "Lean 4 theorems over the traversal model + query-lattice differential with well-formedness/monotonicity predicates",
     },
     "C04": {
@@ -123,7 +128,10 @@ CLAIMS = {
                 "Euclidean/Manhattan on finite vectors; cosine in [0,1]; rounding-error bounds for scalar and SIMD shapes in the standard "
                 "model, which the bit-level soft-float arithmetic is proved to satisfy in the normal range, so the bounds hold for the "
                 "actual kernels (C11_round_f32_dot_product, _euclidean_distance, _manhattan_distance). Every real kernel (dispatching, scalar, SSE, AVX+FMA) is compared BIT FOR BIT with the model's soft-float kernels "
-                "for lengths 1..300 x byte offsets 0..3 x value families, and with the exact sum within the bound.",
+                "for lengths 1..300 x byte offsets 0..3 x value families, and with the exact sum within the bound; every REPORTED distance of "
+                "the four metrics is checked against its definition evaluated exactly (sqrt(sum (a-b)^2), sum |a-b|, (1-cos)/2 with 0 for a "
+                "vanishing norm, the inner product), for symmetry against the swapped pair and for the self-distance; the distances that "
+                "queries report end to end are checked on the c11 histories.",
         "note": COMMON_NOTE + " The soft-float operations are PROVED to satisfy the standard model in the normal range (C11_f32_std_model_on; mul/add/sub/fma/div/sqrt), and the actual dispatching kernels get the rounding bound under a decidable no-overflow/underflow run-time flag (C11_round_f32_dot_product …); that the host FPU equals the soft-float is validated bit-exactly, not proved. Underflow (absolute error) is not covered.",
         "technique": "Lean 4 theorems (Mathlib CommRing / reals for cover and rounding, core for bit-level symmetry) + bit-exact kernel differential",
     },
@@ -157,7 +165,11 @@ CLAIMS = {
         "text": "prepare_changing_distance is characterised exactly for all 49 metric pairs: identity for the same metric; otherwise forest "
                 "and metadata gone, same item ids, vectors re-encoded from the f32 view at the declared dimension (bit-identical f32->f32, "
                 "sign pattern into quantised, +-1 out of quantised), other indexes / marks / version untouched, need_build, and the old "
-                "metric refused after the next build. All pairs are run on the real crate over several index shapes with neighbours.",
+                "metric refused after the next build. The metric change is an operation of the history grammar of every history theorem "
+                "(C01/C02/C03/C04/C05/C07/C15): after any history, a change of metric, any further operations and a successful build the "
+                "reader opens under the new metric with exactly the stored ids, the forest is valid, unlimited-budget search is exact, "
+                "the old metric is refused, and the index demands a build until then (C18_build_after_change_reachable, "
+                "C18_needs_build_until_built). All pairs are run on the real crate over several index shapes with neighbours.",
         "note": COMMON_NOTE,
         "technique": "Lean 4 characterisation theorems + differential replay over all ordered metric pairs",
     },
@@ -190,9 +202,10 @@ CLAIMS = {
         "text": "Key layout proved for ALL keys (byte order = (index, kind, id) order, round-trip, injectivity, 8 bytes), node-id and "
                 "version codecs round-trip, and an obligation tying the layout extracted from the current sources to the reference "
                 "layout; every key and value the implementation writes in the explored histories is decoded AND re-encoded by the "
-                "reference codec of the model, byte for byte; raw keys of real operations over the boundary lattice compared.",
-        "note": COMMON_NOTE + " Little-endian host assumed for native-endian fields. Roaring serialisation round-trip is not yet a theorem "
-                "(compared byte-for-byte on every dump instead).",
+                "reference codec of the model, byte for byte, and every stored vector has the length the layout prescribes for the vector as "
+                "written (dimensions on both sides of the 64-component word); raw keys of real operations over the boundary lattice compared; "
+                "golden fixtures of all 7 metrics are loaded, read, searched, updated and rebuilt.",
+        "note": COMMON_NOTE + " Little-endian host assumed for native-endian fields. The roaring serialisation round-trip is a theorem for array and bitmap containers (what roaring-rs 0.10 writes); run containers are not modelled.",
         "technique": "Lean 4 theorems (all keys) + extractor obligation + differential decode/re-encode of every dump",
     },
 }
